@@ -15,7 +15,7 @@ from sim import world as W
 
 PROPERTY = "C14"
 LEVEL = "exploration"
-BUDGET = {"quick": 170, "thorough": 2400}
+BUDGET = {"quick": 170, "thorough": 3000}
 ASSUMPTIONS = [
     "numpy backend: the discrete sampler is funsor's own inverse-CDF code in Tensor._sample, the Gaussian noise comes from ops.randn -> numpy.random.randn",
     "edge draws are values numpy.random.rand can return (in [0, 1)): 0.0, the smallest subnormal, CDF breakpoints of the row and their float neighbours, 1-2**-53",
